@@ -27,20 +27,24 @@ Tw(tok, rank) == [tok |-> tok, rank |-> rank, twin |-> TRUE]   \* same class as 
 (* Go's ==; smaller rank <=> natural order (false<true, numeric <,         *)
 (* bytewise strings, real part before imaginary part).                     *)
 SignedTab == << L("0", 2), L("1", 3), L("m1", 1), L("max", 4), L("min", 0) >>
+\* 64-bit kinds: "hi1" = 1<<40 + 1 has the LOW BYTES of 1 (a narrower read cannot tell them apart)
+WideTab   == << L("0", 2), L("1", 3), L("m1", 1), L("max", 5), L("min", 0), L("hi1", 4) >>
 FloatTab  == << L("pz", 2), L("1", 4), L("m1.5", 0), L("max", 5), L("half", 3), L("msmall", 1), Tw("nz", 2) >>
 LeafTab == [
   bool       |-> << L("false", 0), L("true", 1) >>,
-  int        |-> SignedTab,
+  int        |-> WideTab,
   int8       |-> SignedTab,
-  int64      |-> SignedTab,
+  int64      |-> WideTab,
   uint8      |-> << L("0", 0), L("1", 1), L("97", 2), L("255", 3) >>,
   uint64     |-> << L("0", 0), L("1", 1), L("big", 2), L("max", 3) >>,
   float32    |-> FloatTab,
   float64    |-> FloatTab,
   \* complex tokens: z=(0,0) a=(1,2) b=(1,3) c=(2,0) d=(-1.5,5) zni=(0,-0) znr=(-0,0)
   complex128 |-> << L("z", 1), L("a", 2), L("b", 3), L("c", 4), L("d", 0), Tw("zni", 1), Tw("znr", 1) >>,
-  \* "" < "Aa" < "BB" < "a" < "a\"\n" < "b" < "é" < "\xff"   (bytewise)
-  string     |-> << L("empty", 0), L("a", 3), L("b", 5), L("Aa", 1), L("BB", 2), L("quote", 4), L("eacute", 6), L("xff", 7) >>
+  \* "" < "%%d" < "100%" < "Aa" < "BB" < "a" < "a\"\n" < "a%sb" < "b" < "é" < "\xff"   (bytewise)
+  \* the typical token (index 2) contains a '%': text pasted into a format string is mangled
+  string     |-> << L("empty", 0), L("pfmt", 7), L("a", 5), L("b", 8), L("Aa", 3), L("BB", 4), L("quote", 6), L("eacute", 9), L("xff", 10),
+                    L("pct", 2), L("ppd", 1) >>
 ]
 
 Toks(b) == {LeafTab[b][i].tok : i \in DOMAIN LeafTab[b]}
